@@ -195,6 +195,9 @@ def main(argv=None):
       inconclusive.append("%s: no condition analysed" % tag)
       continue
     bad = [v for v in res["verdicts"] if v["state"] != "CONFIRMED"]
+    if os.environ.get("VERIF_COLLECT_ALL"):
+      for fl in rec.get("failures", []):
+        handle_failure(h, fl)
     if not bad:
       confirmed += len(states)
       exp = job.get("expected")
@@ -207,7 +210,8 @@ def main(argv=None):
         if not fails:
           inconclusive.append("%s: POST_FAIL without recorded case: %s" % (tag, v["message"][:300]))
         for fl in fails[:3]:
-          handle_failure(h, fl)
+          if not any(v2["harness"] == h and v2["sig"] == fl["sig"] for v2 in violations):
+            handle_failure(h, fl)
       else:
         inconclusive.append("%s: %s %s" % (tag, v["state"], v["message"][:400]))
 
